@@ -11,7 +11,7 @@ from . import cfg
 from .must import Must
 
 
-def run(chk, unit="asmjit/x86/x86instapi.cpp", rule="R-ER-IMPLIES-SAE-LOOKED-AT", floor=2):
+def run(chk, unit="asmjit/x86/x86instapi.cpp", rule="R-ER-IMPLIES-SAE-LOOKED-AT", floor=3):
     chk.rule(rule, "x86 instruction API (validate / query_rw_info / query_features): a test of an option mask containing InstOptions::kX86_ER "
                    "but not kX86_SAE is reached only on the taken edge of a test whose mask contains both: what holds for {er} because the "
                    "form is register-only holds for {sae} too")
@@ -70,6 +70,6 @@ def run(chk, unit="asmjit/x86/x86instapi.cpp", rule="R-ER-IMPLIES-SAE-LOOKED-AT"
                    detail="`%s` decides from {er} alone: with {sae} - which is just as register-only - the other branch is taken (query_rw_info: "
                           "an operand is reported replaceable by memory although the validator refuses {sae} with a memory operand)" %
                           " ".join(fn.text(i).split())[:60], key="ersae|%s" % fn.name.replace("asmjit::", ""))
-    chk.floor(rule + ":er-only-tests", n, floor)
+    chk.floor(rule + ":tests-of-er", n + nboth, floor)      # tests whose mask contains kX86_ER, alone or together with kX86_SAE
     chk.floor(rule + ":common-tests", nboth, 1)
     return n
